@@ -3,6 +3,7 @@ import LSProofs.Gen.CloneDrop
 import LSProofs.Gen.Collect
 import LSProofs.Gen.Clear
 import LSProofs.Gen.Retain
+import LSProofs.Gen.Bytes
 import LSProofs.StepSpec
 import LSProofs.Refine
 import LSModel.ApiGen
@@ -139,6 +140,7 @@ theorem finishUtf16G_eq (w : World) (d : Nat) (res : Res Unit) : finishUtf16G w 
 /-- `char` items are at most four bytes (what `encode_utf8(&mut [0; 4])` is handed) -/
 def Op.CharItems : Op → Prop
   | .extendChars _ _ items | .collectChars _ _ items => ∀ s, some s ∈ items → s.length ≤ 4
+  | .fromChar _ c => c.length ≤ 4
   | _ => True
 
 theorem map_toChr_b (items : List (Option Bytes)) : (items.map G.toChr).map (Option.map (·.b)) = items := by
@@ -187,7 +189,7 @@ theorem stepG_eq_step (rf : Refuse) {w : World} (hw : Wf w) (hrc : RcSmall w.hea
   | fromStr d t plain => (simp only [stepG, step, G_fromStr_eq] <;> try rfl)
   | fromStatic d sid => rfl
   | withCapacity d n plain => (simp only [stepG, step, G_withCapacity_eq] <;> try rfl)
-  | fromChar d c => rfl
+  | fromChar d c => simp only [stepG, step, from_char_step ⟨c, c.length⟩ hc, G.ctorOut]
   | clone d s => (simp only [stepG, step, G_shallowClone_eq _ _ hrc] <;> try rfl)
   | cloneFrom d s =>
     (simp only [stepG, step, G_shallowClone_eq _ _ hrc, G_releaseRepr_eq] <;> try rfl)
@@ -283,7 +285,7 @@ theorem stepG_eq_step (rf : Refuse) {w : World} (hw : Wf w) (hrc : RcSmall w.hea
       have gi : IsGood w d w.heap (.inl inlEmpty) := ⟨[], good_inline_fresh (linv_empty hw hd) [] valid_nil (by simp)⟩
       (simp only [displayLoopG_eq rf pieces w.heap _ gi hv] <;> try rfl)
   | fromInt d ty v => rfl
-  | fromBool d b => rfl
+  | fromBool d b => simp only [stepG, step, from_bool_step, G.ctorOut]
   | fromUtf8 d b => (simp only [stepG, step, G_fromStr_eq] <;> try rfl)
   | fromUtf8Lossy d b =>
     simp only [stepG, step, G_withCapacity_eq, finishTempG_eq]
